@@ -366,65 +366,88 @@ func runC13(c *Ctx) {
 		stateFn := w.Func("client", "binding", "state")
 		n := 0
 		for _, cs := range w.callsTo(setState) {
-			k, isK := constInt(cs.Common().Args[1])
-			if !isK {
+			// the state is a constant, or a phi of constants (`next := A; if c { next = B };
+			// setState(next)`): each constant is then judged under the facts of the edge it
+			// arrives on (the end of the predecessor block)
+			type cand struct {
+				k  int64
+				at ssa.Instruction
+			}
+			var cands []cand
+			if k0, isK := constInt(cs.Common().Args[1]); isK {
+				cands = append(cands, cand{k0, cs})
+			} else if phi, isPhi := cs.Common().Args[1].(*ssa.Phi); isPhi {
+				for i, e := range phi.Edges {
+					ke, isKe := constInt(e)
+					pb := phi.Block().Preds[i]
+					if !isKe || len(pb.Instrs) == 0 {
+						cands = nil
+						break
+					}
+					cands = append(cands, cand{ke, pb.Instrs[len(pb.Instrs)-1]})
+				}
+			}
+			if len(cands) == 0 {
 				c.Undecided("C13.3", fname(cs.Parent()), "setState", w.instrPos(cs), "state argument is not a constant")
 				continue
 			}
-			if !okSet[k] {
-				continue
-			}
-			n++
-			fn := cs.Parent()
-			c.Anchor("C13.3", fname(fn))
-			good, how := false, ""
-			if w.afterSuccessfulBind(cs, bindFn) {
-				good, how = true, "after bind(bound) == nil"
-			}
-			for _, f := range w.factsAt(cs) {
-				// (b) start state known in OK
-				if f.Op == "true" && f.Truth {
-					if wc, _ := callOf(f.X); wc != nil && wc.Call.StaticCallee() == wasReady && wrOK {
-						good, how = true, "start state was ready (bindingStateWasReady ⊆ OK)"
-					}
+			for _, cd := range cands {
+				k, at := cd.k, cd.at
+				if !okSet[k] {
+					continue
 				}
-				if f.Op == "==" && f.Truth {
-					for _, pair := range [][2]ssa.Value{{f.X, f.Y}, {f.Y, f.X}} {
-						if k2, isK2 := constInt(pair[1]); isK2 && okSet[k2] {
-							if sc, _ := callOf(pair[0]); sc != nil && sc.Call.StaticCallee() == stateFn {
-								good, how = true, fmt.Sprintf("start state == %d ∈ OK", k2)
-							}
-						}
-					}
+				n++
+				fn := cs.Parent()
+				c.Anchor("C13.3", fname(fn))
+				good, how := false, ""
+				if w.afterSuccessfulBind(cs, bindFn) {
+					good, how = true, "after bind(bound) == nil"
 				}
-			}
-			if !good {
-				// the start-state tests may be alternatives of one `||`: every path to the
-				// transition takes an edge on which the start state is known to be in OK
-				if ok, _ := everyPathToBlock(fn, cs.Block(), func(f Fact) bool {
+				for _, f := range w.factsAt(at) {
+					// (b) start state known in OK
 					if f.Op == "true" && f.Truth {
 						if wc, _ := callOf(f.X); wc != nil && wc.Call.StaticCallee() == wasReady && wrOK {
-							return true
+							good, how = true, "start state was ready (bindingStateWasReady ⊆ OK)"
 						}
 					}
 					if f.Op == "==" && f.Truth {
 						for _, pair := range [][2]ssa.Value{{f.X, f.Y}, {f.Y, f.X}} {
 							if k2, isK2 := constInt(pair[1]); isK2 && okSet[k2] {
-								if sc, _ := callOf(w.resolveLoad(pair[0])); sc != nil && sc.Call.StaticCallee() == stateFn {
-									return true
+								if sc, _ := callOf(pair[0]); sc != nil && sc.Call.StaticCallee() == stateFn {
+									good, how = true, fmt.Sprintf("start state == %d ∈ OK", k2)
 								}
 							}
 						}
 					}
-					return false
-				}); ok {
-					good, how = true, "on every path the start state is known to be in OK"
 				}
-			}
-			if good {
-				c.OK("C13.3", fname(fn), fmt.Sprintf("setState(%d)", k), w.instrPos(cs), how)
-			} else {
-				c.Bad("C13.3", fname(fn), fmt.Sprintf("setState(%d)", k), w.instrPos(cs), "the binding is put into a state in which ChannelData is used although the server has not confirmed the binding on this path", w.factsDesc(cs)...)
+				if !good {
+					// the start-state tests may be alternatives of one `||`: every path to the
+					// transition takes an edge on which the start state is known to be in OK
+					if ok, _ := everyPathToBlock(fn, at.Block(), func(f Fact) bool {
+						if f.Op == "true" && f.Truth {
+							if wc, _ := callOf(f.X); wc != nil && wc.Call.StaticCallee() == wasReady && wrOK {
+								return true
+							}
+						}
+						if f.Op == "==" && f.Truth {
+							for _, pair := range [][2]ssa.Value{{f.X, f.Y}, {f.Y, f.X}} {
+								if k2, isK2 := constInt(pair[1]); isK2 && okSet[k2] {
+									if sc, _ := callOf(w.resolveLoad(pair[0])); sc != nil && sc.Call.StaticCallee() == stateFn {
+										return true
+									}
+								}
+							}
+						}
+						return false
+					}); ok {
+						good, how = true, "on every path the start state is known to be in OK"
+					}
+				}
+				if good {
+					c.OK("C13.3", fname(fn), fmt.Sprintf("setState(%d)", k), w.instrPos(cs), how)
+				} else {
+					c.Bad("C13.3", fname(fn), fmt.Sprintf("setState(%d)", k), w.instrPos(cs), "the binding is put into a state in which ChannelData is used although the server has not confirmed the binding on this path", w.factsDesc(at)...)
+				}
 			}
 		}
 		if n < 3 {
